@@ -785,6 +785,59 @@ SUFFIX_NAMES = ["s.json", "s.yml", "s.yaml", "s.JSON", "s.Yaml", "s.txt", "s", "
                 ".json", ".yml", "s.json.", "s..yaml", "s.jsonx", "s.ym", "dir.yml/s", "dir.json/s.yaml", "a b.yml", "s.yml "]
 
 
+def stream_partial(ctx: Ctx, res: Result, shipped):
+    """The flow a run takes — `apply_default_config(read_config(file))` — on settings files that spell out only PART of a block
+    (e.g. `mode_gamma: {order: 4}`): validation only checks (it does not change what it is given), `read_config` returns what the file
+    says, and every leaf the file leaves out comes from the packaged default."""
+    read_config, update_config, apply_default_config, validate_config = _impl()
+    rng = ctx.rng
+    tmp = tempfile.mkdtemp(prefix="cij_c16p_")
+    n = 0
+    try:
+        for name, cfg in shipped.items():
+            if name == "default": continue
+            leaves = [p for p in leaf_items(cfg) if len(p) >= 3]
+            for k in range(24 if ctx.thorough() else 6):
+                v = copy.deepcopy(cfg)
+                for p in [leaves[i] for i in rng.permutation(len(leaves))[:int(rng.integers(1, 5))]]:
+                    v = del_path(v, p)
+                if call_validate(copy.deepcopy(v)) != "accept": continue
+                before = copy.deepcopy(v)
+                res.evaluations += 1; n += 1
+                ok = True
+                try:
+                    validate_config(v)
+                except Exception:
+                    pass
+                if canon(v) != canon(before):
+                    ok = False
+                    res.oracle_failures.append(OracleFailure(what="validate_config changes the configuration it is given", input={"check": "partial", "cfg": before},
+                                                             observed=repr(v)[:300], expected=repr(before)[:300], site="validate_config:mutates"))
+                pth = os.path.join(tmp, f"p{n}.yaml")
+                with open(pth, "w") as fp: fp.write(yaml.safe_dump(before))
+                try:
+                    got = read_config(pth)
+                    eff = apply_default_config(copy.deepcopy(got))
+                    ref = apply_default_config(copy.deepcopy(before))
+                except Exception as e:  # noqa: BLE001
+                    ok = False
+                    res.oracle_failures.append(OracleFailure(what="a valid partly specified settings file is not loaded", input={"check": "partial", "cfg": before},
+                                                             observed=f"{type(e).__name__}: {str(e)[:200]}", expected="the effective configuration", site="read_config:partial:raises"))
+                    continue
+                if canon(got) != canon(before):
+                    ok = False
+                    res.oracle_failures.append(OracleFailure(what="read_config (validating) returns something else than the file says", input={"check": "partial", "cfg": before},
+                                                             observed=repr(got)[:300], expected=repr(before)[:300], site="read_config:partial:differs"))
+                if canon(eff) != canon(ref):
+                    ok = False
+                    res.oracle_failures.append(OracleFailure(what="effective configuration of a partly specified file is not user-over-packaged-default", input={"check": "partial", "cfg": before},
+                                                             observed=repr(eff)[:300], expected=repr(ref)[:300], site="effective:partial:differs"))
+                if ok: res.traces_validated += 1
+    finally:
+        shutil.rmtree(tmp, ignore_errors=True)
+    res.distribution["partial_file_flow_cases"] = n
+
+
 def stream_spelling(ctx: Ctx, res: Result, shipped, vcases, n_random):
     read_config = _impl()[0]
     rng = ctx.rng
@@ -903,6 +956,7 @@ def run(ctx: Ctx) -> Result:
     seen |= s2
     stream_variants(ctx, res, schema, vcases)
     stream_spelling(ctx, res, shipped, vcases, n_random=400 if th else 40)
+    stream_partial(ctx, res, shipped)
     seen.discard(json.dumps(["merge", enc({}), enc({})], sort_keys=True))
     res.distinct_nontrivial = len(seen)
     res.notes.append("parsers (PyYAML/json) are not modelled; YAML/JSON equivalence is tested on the real read_config only")
@@ -955,6 +1009,25 @@ def replay(ctx: Ctx, payload):
                           f"validate:{payload.get('kind')}:{'.'.join(payload.get('field', []))}:{payload['expect']}")]
     elif chk == "spelling":
         fails = oracle_spelling(payload["cfg"])
+    elif chk == "partial":
+        cfg = payload["cfg"]
+        v = copy.deepcopy(cfg)
+        try: validate_config(v)
+        except Exception: pass
+        if canon(v) != canon(cfg):
+            fails.append(("validate_config changes the configuration it is given", repr(v)[:300], repr(cfg)[:300], "validate_config:mutates"))
+        tmp = tempfile.mkdtemp(prefix="cij_c16_")
+        try:
+            pth = os.path.join(tmp, "p.yaml")
+            with open(pth, "w") as fp: fp.write(yaml.safe_dump(cfg))
+            got = read_config(pth)
+            if canon(got) != canon(cfg):
+                fails.append(("read_config (validating) returns something else than the file says", repr(got)[:300], repr(cfg)[:300], "read_config:partial:differs"))
+            eff, ref = apply_default_config(copy.deepcopy(got)), apply_default_config(copy.deepcopy(cfg))
+            if canon(eff) != canon(ref):
+                fails.append(("effective configuration of a partly specified file is not user-over-packaged-default", repr(eff)[:300], repr(ref)[:300], "effective:partial:differs"))
+        finally:
+            shutil.rmtree(tmp, ignore_errors=True)
     elif chk == "read_validate":
         tmp = tempfile.mkdtemp(prefix="cij_c16_")
         try:
